@@ -25,7 +25,7 @@ end iocopy.UDP
 
 namespace Skel
 def Bidirectional : List String := ["wg.Add", "wg.Done", "connA.Close", "connA.Read", "writerB.Write", "writerB.Close", "tryCloseWrite", "wg.Done", "connB.Close", "readerB.Read", "connA.Write", "tryCloseWrite", "wg.Wait", "connA.Close", "connB.Close"]
-def UDP : List String := ["wg.Add", "wg.Done", "tunnelConn.Write", "flushLocked", "udpConn.Read", "flushLocked", "flushLocked", "flushLocked", "tryCloseWrite", "wg.Done", "udpConn.Close", "flush", "udpConn.Write", "tunnelConn.Read", "flush", "flush", "flush", "flush", "wg.Wait", "udpConn.Close", "tunnelConn.Close"]
+def UDP : List String := ["wg.Add", "wg.Done", "tunnelConn.Write", "batchMu.Lock", "flushLocked", "batchMu.Unlock", "udpConn.Read", "batchMu.Lock", "flushLocked", "batchMu.Unlock", "batchMu.Lock", "flushLocked", "batchMu.Unlock", "flushLocked", "batchMu.Unlock", "tryCloseWrite", "wg.Done", "udpConn.Close", "flush", "udpConn.Write", "tunnelConn.Read", "flush", "flush", "flush", "flush", "wg.Wait", "udpConn.Close", "tunnelConn.Close"]
 def runDataCopy : List String := ["iocopy.UDP", "iocopy.Bidirectional", "bytesSent.Add", "bytesRecv.Add", "t.Close"]
 end Skel
 
